@@ -13,7 +13,7 @@ RULE = ("enum: each of the 20 single residues and 60 two/three-residue titratabl
         "[-10,0) U (14,30] and +/-inf. Oracle: own Henderson-Hasselbalch sums at the EMBOSS pKa values / N for NCPR(pH), FCR(pH), "
         "|NCPR(pH)| for mean net charge, FCR(pH)+f_P for the expanding fraction; NCPR non-increasing in pH; |NCPR|<=FCR<=titratable/N; "
         "out-of-range pH raises; get_isoelectric_point() returns (10 s watchdog = inconclusive) a pH where the harness's own charge per "
-        "titratable residue is within 0.02 of zero, 7.0 when nothing titrates. Non-trivial: >=1 titratable residue; distinct by (sequence, pH pair).")
+        "titratable residue is within 0.02 of zero, 7.0 when nothing titrates. sequences <=60 residues optionally after a generated warm-up history; the object that has just computed its pI is re-titrated at the pH values the bisection visits. Non-trivial: >=1 titratable residue; distinct by (sequence, pH pair).")
 ASSUMPTIONS = ["pKa table in vlc/ref.py transcribes the documented EMBOSS values (C 8.5, Y 10.1, H 6.5, E 4.1, D 3.9, K 10.0, R 12.5)",
                "NaN is not a pH and is not generated", "tolerance 1e-9 on charges; 0.02 + 1e-9 on the pI condition; 1e-12 slack on monotonicity (float summation)"]
 TECHNIQUE = "Hypothesis property testing + small exhaustive grid; differential oracle = independent Henderson-Hasselbalch evaluation, monotonicity and bound invariants, validity predicate for the isoelectric point"
@@ -41,9 +41,9 @@ def pI_with_watchdog(o, secs=10):
         signal.signal(signal.SIGALRM, old)
 
 
-def check_ph(ctx, seq, pH, case):
+def check_ph(ctx, seq, pH, case, obj=None):
     N = len(seq)
-    o = util.sp(seq)
+    o = obj if obj is not None else util.spw(seq, case)
     net = ref.hh_net(seq, pH) / N
     tot = ref.hh_total(seq, pH) / N
     got_n = o.get_NCPR(pH)
@@ -74,7 +74,8 @@ def check(ctx, case):
             ok, res = util.exc_name(getattr(util.sp(seq), meth), bad)
             ctx.check(not ok, "ph-range", "%s(%r) answered %r instead of rejecting a pH outside [0,14]" % (meth, bad, res if ok else None), case)
     if case.get("pI", True):
-        pI = pI_with_watchdog(util.sp(seq))
+        shared = util.spw(seq, case)
+        pI = pI_with_watchdog(shared)
         ctx.check(isinstance(pI, float) or isinstance(pI, int), "pI-type", "get_isoelectric_point() returned %r" % (pI,), case)
         if nt == 0:
             ctx.check(pI == 7.0, "pI-nothing-titrates", "pI=%r for a sequence without titratable residues (expected 7.0)" % (pI,), case)
@@ -83,6 +84,9 @@ def check(ctx, case):
             ctx.check(abs(resid) <= 0.02 + 1e-9, "pI-neutral", "at the reported pI=%r the mean charge per titratable residue is %r (|.|>0.02)" % (pI, resid), case)
             if pI < 0 or pI > 14:
                 ctx.cls("pI-outside-0-14")
+        # the object that has just searched its pI must still titrate correctly (pH values the bisection visits included)
+        for p in [7.0, 3.5, 10.5, 5.25, 8.75] + [x for x in phs[:2]] + ([pI] if 0 <= pI <= 14 else []):
+            check_ph(ctx, seq, p, case, obj=shared)
 
 
 def enum_cases(tier, seed):
@@ -130,7 +134,8 @@ PH_BAD = st.one_of(st.floats(-10, 0, exclude_max=True, allow_nan=False), st.floa
 @st.composite
 def hyp_case(draw, max_len):
     cls, s = draw(ph_seq(max_len))
-    return {"seq": s, "cls": cls, "pH": draw(st.lists(PH_OK, min_size=1, max_size=3)), "bad_pH": draw(st.lists(PH_BAD, max_size=1))}
+    return {"seq": s, "cls": cls, "pH": draw(st.lists(PH_OK, min_size=1, max_size=3)), "bad_pH": draw(st.lists(PH_BAD, max_size=1)),
+            "warm": draw(gens.warmups()) if len(s) <= 60 else []}
 
 
 def parts(tier):
